@@ -140,9 +140,6 @@ static inline bool ts_tree_cursor_child_iterator_previous(
 
   if (!extra && self->alias_sequence) {
     *visible |= self->alias_sequence[self->structural_child_index];
-    if (self->structural_child_index > 0) {
-      self->structural_child_index--;
-    }
   }
 
   // unsigned can underflow so compare it to child_count
@@ -150,6 +147,12 @@ static inline bool ts_tree_cursor_child_iterator_previous(
     Subtree previous_child = ts_subtree_children(self->parent)[self->child_index];
     Length size = ts_subtree_size(previous_child);
     self->position = length_backtrack(self->position, size);
+
+    // The structural index counts the non-extra children before the current
+    // one, whether or not the production has an alias sequence.
+    if (!ts_subtree_extra(previous_child)) {
+      self->structural_child_index--;
+    }
   }
 
   return true;
